@@ -59,7 +59,8 @@ impl RecvRateSet {
             is_initial: false
         });
 
-        self.entries.retain(|e| now_ms - e.timestamp_ms < 2 * rtt_ms);
+        // Delete values older than two round-trip times (never the value just added)
+        self.entries.retain(|e| now_ms - e.timestamp_ms <= 2 * rtt_ms);
 
         return self.max();
     }
